@@ -199,6 +199,14 @@ func c04(args []string) {
 		rounds = 10
 	}
 	n := 0
+	// near-twin messages decoded one after the other in the same process
+	for k := 0; k < 10*rounds; k++ {
+		for _, p := range gen.TwinMSMs(rng, gen.MSMTypes[k%14]) {
+			if len(p) <= 1023 {
+				c04Decode(w, tr.Frame(p), []string{"decoder", "handler"}[k%2], "twin/mixed", 0, slog.LevelInfo)
+			}
+		}
+	}
 	for r := 0; r < rounds; r++ {
 		for ti, typ := range gen.MSMTypes {
 			for shape := 0; shape <= 7; shape++ {
